@@ -47,7 +47,11 @@ class _Gen:
             self.features.add("dim")
             sig[3] = "int *out0 @dim(8, 8)"
             parts = body.split("out0[g] =")
-            body = parts[0] + "".join(("out0(g % 8, g / 8) =" if r.random() < 0.7 else "out0[g] =") + x for x in parts[1:])
+            # (index arguments with operators that bind weaker than + : they must be used as complete expressions)
+            body = parts[0] + "".join((r.choice(["out0(g % 8, g / 8) =", "out0(g % 8, g / 8) =", "out0(g > 7 ? g % 8 : g, g >> 3) ="])
+                                       if r.random() < 0.7 else "out0[g] =") + x for x in parts[1:])
+            if "out0(g > 7 ? g % 8 : g, g >> 3)" in body:
+                self.features.add("dim-expression-index")
         lines = body.split("\n")
         out = []
         for ln in lines:
@@ -241,16 +245,20 @@ class _Gen:
         return out
 
     def expr(self, g, depth):
-        """A random integer expression over in0[g] (0..9), in1[g] (0..6), g and constants whose value is defined in C++
+        """(A unary operator is always parenthesised when it follows a binary one: the OKL parser of this tree rejects
+        `2 * -1` - "Unable to form an expression" - already at the pinned commit; that is front-end territory, C12-C16.)
+        A random integer expression over in0[g] (0..9), in1[g] (0..6), g and constants whose value is defined in C++
         (no division by zero, no overflow, shifts by 0..2) - what matters is that every backend re-prints it with the
         meaning the source has: precedence, associativity, unary operators, ternaries."""
         r = self.r
         if depth <= 0 or r.random() < 0.25:
             return r.choice(["in0[%s]" % g, "in1[%s]" % g, str(g), str(r.randint(0, 9)), "in0[%s]" % g])
-        a, b = self.expr(g, depth - 1), self.expr(g, depth - 1)
+        def P(e):
+            return "(%s)" % e if e[0] in "-!~" else e
+        a, b = P(self.expr(g, depth - 1)), P(self.expr(g, depth - 1))
         x = r.random()
         if x < 0.18:
-            return "%s - (%s - %s)" % (a, b, self.expr(g, depth - 1))
+            return "%s - (%s - %s)" % (a, b, P(self.expr(g, depth - 1)))
         if x < 0.30:
             return "(%s + %s) * %s" % (a, b, r.choice(["2", "3", "in1[%s]" % g]))
         if x < 0.40:
@@ -258,7 +266,7 @@ class _Gen:
         if x < 0.50:
             return "%s %% (((%s) & 3) + 2)" % (a, b)
         if x < 0.58:
-            return "-(%s) - -(%s)" % (a, b)
+            return "-(%s) - (-(%s))" % (a, b)
         if x < 0.66:
             return "(((%s) & 1023) << ((%s) & 3)) >> 1" % (a, b)
         if x < 0.74:
@@ -266,8 +274,8 @@ class _Gen:
         if x < 0.84:
             return "((%s) > (%s) ? (%s) : (%s) - 1)" % (a, b, a, b)
         if x < 0.92:
-            return "!(%s) + ~(%s) %% 5" % (a, b)
-        return "%s * -%s + (%s < %s)" % (a, r.choice(["2", "3"]), a, b)
+            return "!(%s) + (~(%s)) %% 5" % (a, b)
+        return "%s * (-%s) + (%s < %s)" % (a, r.choice(["2", "3"]), a, b)
 
     def val(self, g):
         r = self.r
@@ -386,7 +394,7 @@ def reference(src):
             continue
         l = l.replace("@kernel void k(", 'extern "C" void kref(')
         l = l.replace("@restrict ", "").replace(" @dim(8, 8)", "").replace(" @simd_length(4)", "")
-        l = l.replace("out0(g % 8, g / 8)", "out0[g % 8 + 8 * (g / 8)]")
+        l = l.replace("out0(g % 8, g / 8)", "out0[g % 8 + 8 * (g / 8)]").replace("out0(g > 7 ? g % 8 : g, g >> 3)", "out0[(g > 7 ? g % 8 : g) + 8 * (g >> 3)]")
         l = re.sub(r";\s*@tile\([^@]*, @outer, @inner\)\)", ")", l)
         l = re.sub(r";\s*@outer(\(\d\))?\)", ")", l)
         if re.search(r";\s*@inner(\(\d\))?\)", l):
